@@ -843,6 +843,27 @@ def cow_into_owned(I, a, n):
     return clone_val(I, unbox(c.fields[0])) if isinstance(c, EnumV) else clone_val(I, c)
 
 
+@model(r"^std::result::Result::(Ok|Err)$|^std::option::Option::Some$")
+def enum_ctor_fn(I, a, n):
+    # `Ok` / `Err` / `Some` used as a function value (e.g. `.map_or_else(f, Ok)`)
+    m = meth(n)
+    return OK(a[0]) if m == "Ok" else (ERR(a[0]) if m == "Err" else SOME(a[0]))
+
+
+@model(r"^core::slice::windows$|^core::slice::chunks$")
+def slice_windows(I, a, n):
+    from .models_iter import ListIt
+    s = vec_as_slice(I, a, n)
+    k = a[1]
+    if is_sym(k):
+        k = I.concretize_int(k, 0, 64, "window size")
+    if k == 0:
+        raise Panic("window size must be non-zero")
+    if meth(n) == "windows":
+        return ListIt([SliceRef(s.items, s.lo + i, s.lo + i + k) for i in range(0, max(0, len(s) - k + 1))], False)
+    return ListIt([SliceRef(s.items, s.lo + i, min(s.hi, s.lo + i + k)) for i in range(0, len(s), k)], False)
+
+
 @model(r"^std::borrow::Cow::(Owned|Borrowed)$")
 def cow_ctor(I, a, n):
     # Cow::Borrowed / Cow::Owned used as a function (e.g. `.map(Cow::Borrowed)`)
